@@ -71,10 +71,22 @@ func genTqCase(r *Rng, c *Ctx, prop string) tqCase {
 			tc.MaxRetries = 3 // a script that fails for ever: keep the total back-off below the watchdog
 		}
 	}
+	// late duplicate adds during delivery: only meaningful when batches start before Wait() (small batch size)
+	if tc.BatchSize <= 2 && tc.N >= tc.BatchSize && r.Chance(60) {
+		tc.SlowWatcherMs = Pick(r, []int{5, 15, 30})
+		o := tc.Adds[0]
+		tc.Obj[o] = []string{"action:ok"}
+		k := 1 + r.Intn(3)
+		for j := 0; j < k; j++ {
+			tc.LateAdds = append(tc.LateAdds, o)
+		}
+		// the first object is added several times up front so that its deliveries fill the watcher channel
+		tc.Adds = append([]int{o, o}, tc.Adds...)
+	}
 	nreq := 2 + r.Intn(6)
 	for k := 0; k < nreq; k++ {
 		call := "200"
-		if failing && r.Chance(9) {
+		if failing && r.Chance(9) && len(tc.LateAdds) == 0 {
 			call = Pick(r, []string{"429", "429:1", "500", "404", "429"})
 		}
 		tc.Calls = append(tc.Calls, call)
@@ -118,6 +130,11 @@ func tqOracle(tc tqCase, o *tqObs) (c06, c15 []string) {
 	adds := map[string]int{}
 	for _, i := range tc.Adds {
 		adds[tqOid(i)]++
+	}
+	for k, i := range tc.LateAdds {
+		if k < o.LateAdded {
+			adds[tqOid(i)]++
+		}
 	}
 	delivered := map[string]int{}
 	for _, d := range o.Delivered {
@@ -370,6 +387,10 @@ func tqCampaign(c *Ctx, prop string) {
 		c.R.Eval(enc, nontrivial)
 		if o == nil {
 			c.R.Add(Finding{Kind: "diff", What: "no observation for this case (child process problem)", Case: enc, Broken: "corr." + prop + ".trace"})
+			continue
+		}
+		if o.Inconclusive {
+			c.R.Count("inconclusive")
 			continue
 		}
 		for _, cl := range o.Calls {
